@@ -410,6 +410,10 @@ func (v *LogScopeVariables) getFromRegex(name string) (value.Value, error) {
 		}, nil
 	}
 	if match := backendRequestHttpHeaderRegex.FindStringSubmatch(name); match != nil {
+		// Backend request is not made when the response is served from cache or generated locally
+		if v.ctx.BackendRequest == nil {
+			return &value.String{IsNotSet: true}, nil
+		}
 		return &value.String{
 			Value: v.ctx.BackendRequest.Header.Get(match[1]),
 		}, nil
